@@ -20,6 +20,7 @@ mod c13k;
 mod c14;
 mod c15;
 mod c16;
+mod c16b;
 mod c17;
 mod c19;
 mod c18;
